@@ -13,6 +13,7 @@ from vf.common import *
 from vf import build as vbuild
 from ref.script import *
 from checks import gen, lockstep
+from ref import asm
 from checks.lockstep import parse_events, exc_kind
 
 PROP = 'C16'
@@ -25,27 +26,30 @@ def tok_of_op(rng, o):
     return rng.choice(['OP_' + n, 'OP_' + n, n]) if not n.isdigit() and n not in ('0',) else 'OP_' + n
 
 
+# inline expressions, as in scripts: the value of the expression is pushed; one that cannot be evaluated is an invalid token
+INLINE = {
+    'sha256(0xab)': push_data(sha256(b'\xab')),
+    'reverse(0x010203)': push_data(b'\x03\x02\x01'),
+    'hash160(0x00)': push_data(hash160(b'\x00')),
+    'int(0x0102)': push_num(0x0201),
+    'int(0x010203040506070809)': None,
+    'int(0xe539d2015a2f0cbde363246e1498fa0c1e05cb74b602043561da1ac0682ab605)': None,
+}
+
+
 def compile_token(tok):
-    """exec's documented grammar: a decimal number that round-trips is pushed as a number; otherwise an
-    even-length hex string is pushed as data; otherwise it must be an opcode name.
-    Returns (bytes, lenient_minimal) or None for an invalid token."""
+    """exec reads its tokens the way the tokens of a script are read (ref.asm, the grammar C07 judges): decimal number of any
+    size -> minimal number push; opcode name -> opcode; hex with or without 0x -> push of those bytes in the minimal form;
+    [ ... ] -> push of the compiled body.  Returns the bytes, or None for a token outside the grammar."""
     if tok == '':
-        return (b'', False)
+        return b''
+    if tok in INLINE:
+        return INLINE[tok]
     try:
-        if (tok.lstrip('-').isdigit() and tok[0] != '+'):
-            n = int(tok)
-            if n != 0 and str(n) == tok and -2 ** 31 <= n < 2 ** 31:
-                return (push_num(n), False)
-    except ValueError:
-        pass
-    if len(tok) % 2 == 0 and all(c in '0123456789abcdefABCDEF' for c in tok):
-        data = bytes.fromhex(tok)
-        direct = push_only(data)
-        return (direct, direct != push_data(data))
-    name = tok[3:] if tok.startswith('OP_') else tok
-    if name in OP:
-        return (bytes([OP[name]]), False)
-    return None
+        c = asm.classify(tok)
+    except asm.AsmError:
+        return None
+    return None if c is None else asm.emit(c)
 
 
 def gen_tokens(rng, sv, state_depth):
@@ -59,7 +63,9 @@ def gen_tokens(rng, sv, state_depth):
             ln = rng.choice([2, 2, 3, 4, 5, 8, 20, 33])
             toks.append(bytes(rng.randrange(256) for _ in range(ln)).hex())
         elif r < 0.5:
-            toks.append(rng.choice(['00', '80', 'ff', '0000000001', '0100', 'ab', '11', '05', '81']))
+            toks.append(rng.choice(['00', '80', 'ff', '0000000001', '0100', 'ab', '11', '05', '81', '01', '0a', '10', '0x05', '0x81', '0x', '0x1234', '0x00', '0xabcdef0123',
+                                    '1ADD', 'OP_1ADD', 'TRUE', 'FALSE', 'NOP2', str(2 ** 31), str(-2 ** 31), str(2 ** 32), str(-2 ** 31 - 1), str(2 ** 40 + 5), str(2 ** 63 - 1), str(-2 ** 63 + 1),
+                                    '[OP_1 OP_ADD]', '[]', '[0x05]']))
         elif r < 0.9:
             o = rng.choice(gen.STACK_OPS + gen.NUM1 + gen.NUM2 + [OP_WITHIN, OP_VERIFY, OP_EQUAL, OP_EQUALVERIFY, OP_IF, OP_NOTIF, OP_ELSE, OP_ENDIF, OP_0, OP_1, OP_1NEGATE, OP_16]
                            + gen.HASHES + gen.NOPS + [OP_RETURN, OP_RESERVED, OP_VER, OP_CAT, OP_2MUL])
@@ -68,7 +74,7 @@ def gen_tokens(rng, sv, state_depth):
             o = rng.choice([x for x in gen.ALL_OPS if x not in gen.SIGOPS and x != OP_CODESEPARATOR])
             toks.append(tok_of_op(rng, o))
     if sv == TAPSCRIPT:
-        toks = [t for t in toks if not ((compile_token(t) or (b'\xff', 0))[0][:1] and is_op_success((compile_token(t) or (b'\xff', 0))[0][0]) and len((compile_token(t))[0]) == 1)] or ['OP_NOP']
+        toks = [t for t in toks if not (len(compile_token(t) or b'') == 1 and is_op_success(compile_token(t)[0]))] or ['OP_NOP']
     return toks
 
 
@@ -237,18 +243,22 @@ def judge(c, evs, part):
     part.count('exec_len', len(toks))
     if any(cpl is None for cpl in comp):
         # invalid token: exec must refuse and change nothing
+        if x.exc.startswith('UNCAUGHT:'):  # (the harness catches what would terminate the real process)
+            part.violation('uncaught-exception-in-exec:' + (exc_kind(x.exc.replace('UNCAUGHT:', '')) or '?'), wit)
+            return
         if x.ret or x.state() != pre.state():
             part.violation('invalid-token-not-refused-cleanly', wit)
         part.count('outcome', 'invalid-token')
         return
-    lenient = any(l for b, l in comp)
-    prog = b''.join(b for b, l in comp)
+    prog = b''.join(comp)
     # execute on the pre-state
     ex = Interp(prog, pre_stack, flags, sv, weight=pre_weight, alt=pre_alt, vf=pre_vf)
     ex.nop = pre_nop
     res = None
+    snap = None
     try:
         while not ex.at_end():
+            snap = (list(ex.stack), list(ex.alt), list(ex.vf), ex.nop, ex.weight)
             ex.step()
     except ScriptFail as e:
         res = e.code
@@ -269,8 +279,6 @@ def judge(c, evs, part):
     if res is not None:
         part.count('outcome', 'fail:' + res)
         if x.ret:
-            if lenient and res == 'MINIMALDATA':
-                return
             wit['ref'] = res
             part.violation('exec-succeeds-where-script-would-fail:' + res, wit)
             return
@@ -285,16 +293,31 @@ def judge(c, evs, part):
         elif res.startswith('NUM_'):
             if ek != res:
                 part.violation('exec-error-differs', wit)
-        elif x.err != res and not (lenient and x.err == 'MINIMALDATA'):
+                return
+        elif x.err != res:
             wit['ref'] = res
             wit['impl'] = x.err
             part.violation('exec-error-differs', wit)
+            return
         part.nontrivial.add(nt_hash(script, k, tuple(toks), flags, sv))
+        # "as if they were the next operations of the script": the operations before the failing one have taken effect, the
+        # failing one executed nothing - exactly what a failing step of the script leaves behind (state before that operation,
+        # the failed operation not counted)
+        ex.stack, ex.alt, ex.vf, ex.nop, ex.weight = snap
+        if not lockstep.stacks_equal(ex.stack, x.stack) or not lockstep.stacks_equal(ex.alt, x.alt) or ex.vfstate() != x.vf:
+            wit['want'] = [s.hex() if isinstance(s, bytes) else str(s) for s in ex.stack]
+            wit['got'] = [s.hex() for s in x.stack]
+            part.violation('failing-exec-operation-leaves-partial-state', wit)
+            return
+        if ex.nop != x.nop:
+            wit['ops_counted'] = [ex.nop, x.nop]
+            part.violation('failing-exec-operation-is-counted', wit)
+            return
+        part.count('failed_exec', 'state-before-failing-operation')
+        continue_session(c, it, ex, st, pos, part, wit, W)
         return
     part.count('outcome', 'ok')
     if not x.ret:
-        if lenient and x.err == 'MINIMALDATA':
-            return
         wit['impl'] = x.err + (':' + x.exc if x.exc else '')
         part.violation('exec-fails-where-script-would-succeed', wit)
         return
@@ -311,6 +334,10 @@ def judge(c, evs, part):
         return
     part.nontrivial.add(nt_hash(script, k, tuple(toks), flags, sv))
     part.sample(dict(script=script.hex()[:120], steps_before=k, exec=toks, stack_after=[s.hex() for s in x.stack][:8]), limit=2)
+    continue_session(c, it, ex, st, pos, part, wit, W)
+
+
+def continue_session(c, it, ex, st, pos, part, wit, W):
     # the rest of the session continues from the post-exec state
     it.stack, it.alt, it.vf, it.nop, it.weight = list(ex.stack), list(ex.alt), list(ex.vf), ex.nop, ex.weight
     if W is not None:
@@ -358,7 +385,7 @@ def worker(job):
             if 'weight' not in c and not c.get('failing_step') and rng.random() < 0.3:
                 c['toks0'] = rng.choice([['0000000000', 'OP_1ADD'], ['OP_0', 'OP_VERIFY'], ['ffffffff7f', 'OP_NEGATE'], ['0100', 'OP_NOT'], ['OP_1', 'OP_DROP'], ['OP_DEPTH'], ['OP_BOGUS'], gen_tokens(rng, c['sv'], 0)])
             if 'weight' not in c and not c.get('failing_step') and rng.random() < 0.03:
-                c['toks'].insert(rng.randrange(len(c['toks']) + 1), rng.choice(['OP_BOGUS', 'zz', 'OP_', '12x', '0x12']))
+                c['toks'].insert(rng.randrange(len(c['toks']) + 1), rng.choice(['OP_BOGUS', 'zz', 'OP_', '12x', '0x123', '-0', '1e3'] + list(INLINE)))
             c['id'] = 'x%d.%d' % (idx, i)
             cmds = ['N ' + c['id'], 'SV %d' % c['sv'], 'FL %d' % c['flags'], 'SC %s' % hexs(c['script'])]
             if c['stack']:
@@ -409,9 +436,9 @@ def repl_worker(job):
             except (ScriptFail, NumErr):
                 continue
             comp = [compile_token(t) for t in toks]
-            if any(cpl is None for cpl in comp) or any(l for b, l in comp):
+            if any(cpl is None for cpl in comp):
                 continue
-            ex = Interp(b''.join(b for b, l in comp), list(it.stack), STANDARD, BASE, alt=list(it.alt), vf=list(it.vf))
+            ex = Interp(b''.join(comp), list(it.stack), STANDARD, BASE, alt=list(it.alt), vf=list(it.vf))
             ex.nop = it.nop
             res = None
             try:
@@ -490,7 +517,8 @@ def main():
              'invalid tokens at 3%; 30% of the sessions issue another exec first - failing, throwing or succeeding - and the judged exec starts from the state reported after it); judged against the reference executing the compiled operations on the same pre-state, then the remaining script is stepped and compared. '
              'every 8th case is a tapscript session with an explicit BIP342 validation-weight budget (0..1000) whose script and exec lists contain CHECKSIG/CHECKSIGVERIFY/CHECKSIGADD on non-empty signatures and unknown-type keys, so that exec\'d checks must consume the same budget as scripted ones. '
              'a sample runs through the real `exec` command of the btcdeb binary (scripted REPL: step k times, exec, state dump). non-trivial = distinct (script, prefix, token list, flags, sigversion) whose exec result (state or required error) was compared',
-        assumptions=['token -> operation mapping is exec\'s documented grammar (round-tripping decimal = number, even-length hex = data push, else opcode name); a data push that is not the minimal form may or may not trip MINIMALDATA',
+        assumptions=['token -> operation mapping is the grammar scripts are written in (ref.asm, judged by C07): decimal of any size = minimal number push, opcode name with or without OP_, hex with or without 0x = push of those bytes in the minimal form, [..] = push of the compiled body',
+                     'a failing exec leaves the state the operations before the failing one produced, the failing one not counted - what a failing step of the script leaves',
                      'signature opcodes inside exec are judged in tapscript sessions without a transaction (empty signatures, unknown public-key types, budget exhaustion); real signature verification and OP_CODESEPARATOR inside exec are exercised by C15 (memory safety) only'],
         min_events=1000)
 
